@@ -36,6 +36,16 @@ def dispatch (j : Json) : List (String × Json) :=
     -- re-match() with a plain alphanumeric pattern (unanchored): the subject contains the pattern
     let r := if ((jstr j "s").splitOn (jstr j "p")).length > 1 then "rm:true" else "rm:false"
     [("m", Json.str r), ("s", Json.str r)]
+  | "ydeep" =>
+    -- the parser's two recursions are bounded (parse/parse.go maxStmtDepth, maxArgPieces = 10000): a block nested deeper,
+    -- an argument of more '+' pieces is refused where the bound is passed; the statement parser of the model has no stack
+    let n := jnat j "n"
+    let r := match jstr j "shape" with
+      | "blocks" => if n > 10000 then "deep:refused" else "deep:err"       -- (never closed)
+      | "closed" => if n - 1 > 10000 then "deep:refused" else "deep:ok"    -- (n statements, n - 1 blocks)
+      | "pieces" => if n > 10000 then "deep:refused" else "deep:ok"
+      | _ => "deep:ok"
+    [("m", Json.str r), ("s", Json.str r)]
   | "un" =>
     -- a union over node sets that are slices of arrays the tree keeps: a new set, the arrays untouched
     [("m", Json.str "un:tree-untouched"), ("s", Json.str "un:tree-untouched")]
